@@ -31,33 +31,33 @@ var registry = map[string]*PropDef{
 	"SMOKE": {Harnesses: []HarnessDef{{Pkg: "cmd", Func: "VP_Smoke", Share: 1.00}}, QuickBudget: time.Minute, ThoroughBudget: time.Minute},
 	"C01": {
 		Harnesses: []HarnessDef{
-			{Pkg: "internal/object", Func: "VP_C01_RoundTrip", Quick: map[string]int{"payload": 6, "shortReads": 1}, Thorough: map[string]int{"payload": 16, "shortReads": 1}, Share: 1.00},
-			{Pkg: "internal/object", Func: "VP_C01_Header", Quick: map[string]int{"sizedigits": 5, "rest": 2}, Thorough: map[string]int{"sizedigits": 7, "rest": 3}, Share: 1.00},
-			{Pkg: "internal/object", Func: "VP_C01_Idempotent", Quick: map[string]int{"payload": 3}, Thorough: map[string]int{"payload": 5}, Share: 1.00},
-			{Pkg: "cmd", Func: "VP_C01_Cli", Quick: map[string]int{"payload": 3}, Thorough: map[string]int{"payload": 6}, Share: 1.00},
+			{Pkg: "internal/object", Func: "VP_C01_RoundTrip", Quick: map[string]int{"payload": 6, "shortReads": 1}, Thorough: map[string]int{"payload": 48, "shortReads": 1}, Share: 1.00},
+			{Pkg: "internal/object", Func: "VP_C01_Header", Quick: map[string]int{"sizedigits": 10, "rest": 2}, Thorough: map[string]int{"sizedigits": 18, "rest": 4}, Share: 1.00},
+			{Pkg: "internal/object", Func: "VP_C01_Idempotent", Quick: map[string]int{"payload": 3}, Thorough: map[string]int{"payload": 8}, Share: 1.00},
+			{Pkg: "cmd", Func: "VP_C01_Cli", Quick: map[string]int{"payload": 3}, Thorough: map[string]int{"payload": 10}, Share: 1.00},
 		},
 		QuickBudget: 10 * time.Minute, ThoroughBudget: 45 * time.Minute, Assumptions: commonAssumptions,
 	},
 	"C02": {
 		Harnesses: []HarnessDef{
-			{Pkg: "cmd", Func: "VP_C02_WriteTree", Quick: map[string]int{"entries": 3, "depth": 2, "complen": 1, "symhash": 0}, Thorough: map[string]int{"entries": 3, "depth": 2, "complen": 2, "symhash": 0}, Share: 1.00},
-			{Pkg: "cmd", Func: "VP_C02_WriteTree", Quick: map[string]int{"entries": 2, "depth": 2, "complen": 2, "symhash": 0}, Thorough: map[string]int{"entries": 2, "depth": 3, "complen": 2, "symhash": 1}, Share: 1.00},
+			{Pkg: "cmd", Func: "VP_C02_WriteTree", Quick: map[string]int{"entries": 3, "depth": 2, "complen": 1, "symhash": 0}, Thorough: map[string]int{"entries": 4, "depth": 2, "complen": 2, "symhash": 0}, Share: 1.00},
+			{Pkg: "cmd", Func: "VP_C02_WriteTree", Quick: map[string]int{"entries": 2, "depth": 2, "complen": 2, "symhash": 0}, Thorough: map[string]int{"entries": 3, "depth": 3, "complen": 2, "symhash": 1}, Share: 1.00},
 			{Pkg: "cmd", Func: "VP_C02_Branches", Quick: map[string]int{"namelen": 1, "branches": 3}, Thorough: map[string]int{"namelen": 2, "branches": 3}, Share: 1.00},
-			{Pkg: "cmd", Func: "VP_C02_Commit", Quick: map[string]int{"files": 2, "depth": 2, "complen": 1, "msglen": 1, "content": 1}, Thorough: map[string]int{"files": 2, "depth": 2, "complen": 2, "msglen": 2, "content": 1}, Share: 1.00},
+			{Pkg: "cmd", Func: "VP_C02_Commit", Quick: map[string]int{"files": 2, "depth": 2, "complen": 1, "msglen": 1, "content": 1}, Thorough: map[string]int{"files": 2, "depth": 2, "complen": 2, "msglen": 3, "content": 2}, Share: 1.00},
 		},
 		QuickBudget: 10 * time.Minute, ThoroughBudget: 45 * time.Minute, Assumptions: commonAssumptions,
 	},
 	"C03": {
 		Harnesses: []HarnessDef{
-			{Pkg: "cmd", Func: "VP_C03_Step", Quick: map[string]int{"prefixes": 4}, Thorough: map[string]int{"prefixes": 4}, Share: 1.00},
+			{Pkg: "cmd", Func: "VP_C03_Step", Quick: map[string]int{"prefixes": 4}, Thorough: map[string]int{"prefixes": 5}, Share: 1.00},
 			{Pkg: "cmd", Func: "VP_C03_Two", Quick: map[string]int{"prefixes": 3, "prefixmin": 2, "symids": 0}, Thorough: map[string]int{"prefixes": 4, "prefixmin": 0, "symids": 0}, Share: 1.00},
 		},
 		QuickBudget: 10 * time.Minute, ThoroughBudget: 45 * time.Minute, Assumptions: commonAssumptions,
 	},
 	"C04": {
 		Harnesses: []HarnessDef{
-			{Pkg: "cmd", Func: "VP_C04_AddMulti", Quick: map[string]int{"args": 3}, Thorough: map[string]int{"args": 4}, Share: 1.00},
-			{Pkg: "cmd", Func: "VP_C04_Add", Quick: map[string]int{"tracked": 2, "depth": 2, "complen": 1}, Thorough: map[string]int{"tracked": 2, "depth": 2, "complen": 1}, Share: 1.00},
+			{Pkg: "cmd", Func: "VP_C04_AddMulti", Quick: map[string]int{"args": 3}, Thorough: map[string]int{"args": 5}, Share: 1.00},
+			{Pkg: "cmd", Func: "VP_C04_Add", Quick: map[string]int{"tracked": 2, "depth": 2, "complen": 1}, Thorough: map[string]int{"tracked": 2, "depth": 2, "complen": 2}, Share: 1.00},
 			{Pkg: "cmd", Func: "VP_C04_Rm", Quick: map[string]int{"tracked": 2, "depth": 2, "complen": 2, "deepcomplen": 1, "kindchange": 1}, Thorough: map[string]int{"tracked": 2, "depth": 2, "complen": 2}, Share: 1.00},
 			{Pkg: "cmd", Func: "VP_C04_ReAdd", Quick: map[string]int{"files": 2, "depth": 2, "complen": 1}, Thorough: map[string]int{"files": 2, "depth": 2, "complen": 2}, Share: 1.00},
 		},
@@ -65,7 +65,7 @@ var registry = map[string]*PropDef{
 	},
 	"C05": {
 		Harnesses: []HarnessDef{
-			{Pkg: "cmd", Func: "VP_C05_TreeRoundTrip", Quick: map[string]int{"entries": 2, "depth": 2, "complen": 2, "symhash": 1}, Thorough: map[string]int{"entries": 3, "depth": 2, "complen": 2, "symhash": 0}, Share: 1.00},
+			{Pkg: "cmd", Func: "VP_C05_TreeRoundTrip", Quick: map[string]int{"entries": 2, "depth": 2, "complen": 2, "symhash": 1}, Thorough: map[string]int{"entries": 4, "depth": 2, "complen": 2, "symhash": 0}, Share: 1.00},
 			{Pkg: "cmd", Func: "VP_C05_Cli", Quick: map[string]int{"files": 2, "depth": 2, "complen": 1}, Thorough: map[string]int{"files": 2, "depth": 2, "complen": 2}, Share: 1.00},
 		},
 		QuickBudget: 10 * time.Minute, ThoroughBudget: 45 * time.Minute, Assumptions: commonAssumptions,
@@ -75,15 +75,16 @@ var registry = map[string]*PropDef{
 			{Pkg: "internal/store", Func: "VP_C06_GetEntry", Quick: map[string]int{"entries": 3, "depth": 2, "complen": 2}, Thorough: map[string]int{"entries": 4, "depth": 2, "complen": 2}, Share: 1.00},
 			{Pkg: "internal/store", Func: "VP_C06_IsDir", Quick: map[string]int{"entries": 3, "depth": 2, "complen": 2}, Thorough: map[string]int{"entries": 4, "depth": 2, "complen": 2}, Share: 1.00},
 			{Pkg: "internal/store", Func: "VP_C06_ByDir", Quick: map[string]int{"entries": 3, "depth": 2, "complen": 2}, Thorough: map[string]int{"entries": 4, "depth": 2, "complen": 2}, Share: 1.00},
-			{Pkg: "internal/store", Func: "VP_C06_WriteRead", Quick: map[string]int{"entries": 2, "depth": 2, "complen": 2}, Thorough: map[string]int{"entries": 3, "depth": 2, "complen": 2}, Share: 1.00},
-			{Pkg: "internal/store", Func: "VP_C06_Update", Quick: map[string]int{"entries": 2, "depth": 2, "complen": 2}, Thorough: map[string]int{"entries": 3, "depth": 2, "complen": 2}, Share: 1.00},
-			{Pkg: "internal/store", Func: "VP_C06_Delete", Quick: map[string]int{"entries": 2, "depth": 2, "complen": 2}, Thorough: map[string]int{"entries": 3, "depth": 2, "complen": 2}, Share: 1.00},
+			{Pkg: "internal/store", Func: "VP_C06_WriteRead", Quick: map[string]int{"entries": 2, "depth": 2, "complen": 2}, Thorough: map[string]int{"entries": 5, "depth": 2, "complen": 2}, Share: 1.00},
+			{Pkg: "internal/store", Func: "VP_C06_Update", Quick: map[string]int{"entries": 2, "depth": 2, "complen": 2}, Thorough: map[string]int{"entries": 4, "depth": 2, "complen": 2}, Share: 1.00},
+			{Pkg: "internal/store", Func: "VP_C06_Delete", Quick: map[string]int{"entries": 2, "depth": 2, "complen": 2}, Thorough: map[string]int{"entries": 4, "depth": 2, "complen": 2}, Share: 1.00},
 		},
 		QuickBudget: 10 * time.Minute, ThoroughBudget: 45 * time.Minute, Assumptions: commonAssumptions,
 	},
 	"C07": {
 		Harnesses: []HarnessDef{
 			{Pkg: "cmd", Func: "VP_C07_Diff", Quick: map[string]int{"pool": 2, "depth": 2, "complen": 2, "symhash": 0}, Thorough: map[string]int{"pool": 3, "depth": 2, "complen": 2, "symhash": 0}, Share: 1.00},
+			{Pkg: "cmd", Func: "VP_C07_KindChange", Quick: map[string]int{"complen": 1, "depth": 2}, Thorough: map[string]int{"complen": 2, "depth": 2}, Share: 1.00},
 			{Pkg: "cmd", Func: "VP_C07_ResetStatus", Quick: map[string]int{"depth": 2, "complen": 2, "deepcomplen": 1, "concontent": 1, "asym": 1}, Thorough: map[string]int{"depth": 2, "complen": 2, "concontent": 1}, Share: 1.00},
 			{Pkg: "cmd", Func: "VP_C07_StatusStaged", Quick: map[string]int{"tracked": 1, "depth": 2, "complen": 2}, Thorough: map[string]int{"tracked": 1, "depth": 2, "complen": 2}, Share: 1.00},
 			{Pkg: "cmd", Func: "VP_C07_StatusStaged", Quick: map[string]int{"tracked": 2, "depth": 1, "complen": 1, "symfiles": 1, "smallcontent": 1}, Thorough: map[string]int{"tracked": 2, "depth": 2, "complen": 1, "symfiles": 1, "smallcontent": 1}, Share: 1.00},
@@ -93,7 +94,7 @@ var registry = map[string]*PropDef{
 	},
 	"C08": {
 		Harnesses: []HarnessDef{
-			{Pkg: "cmd", Func: "VP_C08_Positions", Quick: map[string]int{"commits": 11}, Thorough: map[string]int{"commits": 13}, Share: 1.00},
+			{Pkg: "cmd", Func: "VP_C08_Positions", Quick: map[string]int{"commits": 11}, Thorough: map[string]int{"commits": 25}, Share: 1.00},
 			{Pkg: "cmd", Func: "VP_C08_Reset", Quick: map[string]int{"complen": 1, "junk": 1}, Thorough: map[string]int{"complen": 1, "junk": 3}, Share: 1.00},
 		},
 		QuickBudget: 10 * time.Minute, ThoroughBudget: 45 * time.Minute, Assumptions: commonAssumptions,
@@ -107,12 +108,12 @@ var registry = map[string]*PropDef{
 	},
 	"C10": {
 		Harnesses: []HarnessDef{
-			{Pkg: "internal/store", Func: "VP_C10_Pos", Quick: map[string]int{"branches": 3, "namelen": 2}, Thorough: map[string]int{"branches": 4, "namelen": 3}, Share: 1.00},
-			{Pkg: "internal/store", Func: "VP_C10_Add", Quick: map[string]int{"branches": 3, "namelen": 2}, Thorough: map[string]int{"branches": 3, "namelen": 3}, Share: 1.00},
-			{Pkg: "internal/store", Func: "VP_C10_Rename", Quick: map[string]int{"branches": 3, "namelen": 2}, Thorough: map[string]int{"branches": 3, "namelen": 3}, Share: 1.00},
-			{Pkg: "internal/store", Func: "VP_C10_Delete", Quick: map[string]int{"branches": 3, "namelen": 2}, Thorough: map[string]int{"branches": 3, "namelen": 3}, Share: 1.00},
-			{Pkg: "internal/store", Func: "VP_C10_UpdateHash", Quick: map[string]int{"branches": 3, "namelen": 2}, Thorough: map[string]int{"branches": 3, "namelen": 3}, Share: 1.00},
-			{Pkg: "internal/store", Func: "VP_C10_Reload", Quick: map[string]int{"branches": 3, "namelen": 2}, Thorough: map[string]int{"branches": 3, "namelen": 3}, Share: 1.00},
+			{Pkg: "internal/store", Func: "VP_C10_Pos", Quick: map[string]int{"branches": 3, "namelen": 2}, Thorough: map[string]int{"branches": 5, "namelen": 3}, Share: 1.00},
+			{Pkg: "internal/store", Func: "VP_C10_Add", Quick: map[string]int{"branches": 3, "namelen": 2}, Thorough: map[string]int{"branches": 4, "namelen": 3}, Share: 1.00},
+			{Pkg: "internal/store", Func: "VP_C10_Rename", Quick: map[string]int{"branches": 3, "namelen": 2}, Thorough: map[string]int{"branches": 4, "namelen": 3}, Share: 1.00},
+			{Pkg: "internal/store", Func: "VP_C10_Delete", Quick: map[string]int{"branches": 3, "namelen": 2}, Thorough: map[string]int{"branches": 4, "namelen": 3}, Share: 1.00},
+			{Pkg: "internal/store", Func: "VP_C10_UpdateHash", Quick: map[string]int{"branches": 3, "namelen": 2}, Thorough: map[string]int{"branches": 4, "namelen": 3}, Share: 1.00},
+			{Pkg: "internal/store", Func: "VP_C10_Reload", Quick: map[string]int{"branches": 3, "namelen": 2}, Thorough: map[string]int{"branches": 4, "namelen": 3}, Share: 1.00},
 			{Pkg: "cmd", Func: "VP_C10_Cli", Quick: map[string]int{"namelen": 1, "qlen": 2}, Thorough: map[string]int{"namelen": 2, "qlen": 2}, Share: 1.00},
 		},
 		QuickBudget: 10 * time.Minute, ThoroughBudget: 45 * time.Minute, Assumptions: commonAssumptions,
@@ -120,14 +121,14 @@ var registry = map[string]*PropDef{
 	"C11": {
 		Harnesses: []HarnessDef{
 			{Pkg: "internal/store", Func: "VP_C11_RoundTrip", Quick: map[string]int{"records": 1, "msglen": 3, "namelen": 2}, Thorough: map[string]int{"records": 2, "msglen": 3, "namelen": 3}, Share: 1.00},
-			{Pkg: "cmd", Func: "VP_C11_Cli", Quick: map[string]int{"msglen": 2}, Thorough: map[string]int{"msglen": 3}, Share: 1.00},
+			{Pkg: "cmd", Func: "VP_C11_Cli", Quick: map[string]int{"msglen": 2}, Thorough: map[string]int{"msglen": 5}, Share: 1.00},
 		},
 		QuickBudget: 10 * time.Minute, ThoroughBudget: 45 * time.Minute, Assumptions: commonAssumptions,
 	},
 	"C12": {
 		Harnesses: []HarnessDef{
-			{Pkg: "internal/object", Func: "VP_C12_Sign", Quick: map[string]int{"namelen": 2, "unixdigits": 10}, Thorough: map[string]int{"namelen": 3, "unixdigits": 10}, Share: 1.00},
-			{Pkg: "cmd", Func: "VP_C12_Cli", Quick: map[string]int{"msglen": 1}, Thorough: map[string]int{"msglen": 3}, Share: 1.00},
+			{Pkg: "internal/object", Func: "VP_C12_Sign", Quick: map[string]int{"namelen": 2, "unixdigits": 10}, Thorough: map[string]int{"namelen": 5, "unixdigits": 10}, Share: 1.00},
+			{Pkg: "cmd", Func: "VP_C12_Cli", Quick: map[string]int{"msglen": 1}, Thorough: map[string]int{"msglen": 5}, Share: 1.00},
 		},
 		QuickBudget: 10 * time.Minute, ThoroughBudget: 45 * time.Minute, Assumptions: commonAssumptions,
 	},
@@ -139,20 +140,20 @@ var registry = map[string]*PropDef{
 	},
 	"C14": {
 		Harnesses: []HarnessDef{
-			{Pkg: "cmd", Func: "VP_C14_Walk", Quick: map[string]int{"chain": 20}, Thorough: map[string]int{"chain": 50}, Share: 1.00},
-			{Pkg: "cmd", Func: "VP_C14_Log", Quick: map[string]int{"commits": 4}, Thorough: map[string]int{"commits": 6}, Share: 1.00},
+			{Pkg: "cmd", Func: "VP_C14_Walk", Quick: map[string]int{"chain": 20}, Thorough: map[string]int{"chain": 200}, Share: 1.00},
+			{Pkg: "cmd", Func: "VP_C14_Log", Quick: map[string]int{"commits": 4}, Thorough: map[string]int{"commits": 9}, Share: 1.00},
 		},
 		QuickBudget: 10 * time.Minute, ThoroughBudget: 45 * time.Minute, Assumptions: commonAssumptions,
 	},
 	"C15": {
 		Harnesses: []HarnessDef{
-			{Pkg: "cmd", Func: "VP_C15_Crash", Quick: map[string]int{"scenarios": 18, "maxmut": 40}, Thorough: map[string]int{"scenarios": 18, "maxmut": 40}, Share: 1.00},
+			{Pkg: "cmd", Func: "VP_C15_Crash", Quick: map[string]int{"scenarios": 26, "maxmut": 40}, Thorough: map[string]int{"scenarios": 26, "maxmut": 40}, Share: 1.00},
 		},
 		QuickBudget: 10 * time.Minute, ThoroughBudget: 45 * time.Minute, Assumptions: commonAssumptions,
 	},
 	"C16": {
 		Harnesses: []HarnessDef{
-			{Pkg: "cmd", Func: "VP_C16_Fault", Quick: map[string]int{"scenarios": 18, "maxops": 60}, Thorough: map[string]int{"scenarios": 18, "maxops": 60}, Share: 1.00},
+			{Pkg: "cmd", Func: "VP_C16_Fault", Quick: map[string]int{"scenarios": 26, "maxops": 60}, Thorough: map[string]int{"scenarios": 26, "maxops": 60}, Share: 1.00},
 		},
 		QuickBudget: 10 * time.Minute, ThoroughBudget: 45 * time.Minute, Assumptions: commonAssumptions,
 	},
@@ -165,26 +166,27 @@ var registry = map[string]*PropDef{
 	},
 	"C18": {
 		Harnesses: []HarnessDef{
-			{Pkg: "cmd", Func: "VP_C18_AnyCmd", Quick: map[string]int{"statemask": 255, "maxargs": 2, "arglen": 1}, Thorough: map[string]int{"statemask": 255, "maxargs": 2, "arglen": 2}, Share: 1.00},
+			{Pkg: "cmd", Func: "VP_C18_AnyCmd", ThoroughOnly: true, Thorough: map[string]int{"statemask": 255, "maxargs": 3, "arglen": 2, "followup": 0}, Share: 1.00},
+			{Pkg: "cmd", Func: "VP_C18_AnyCmd", Quick: map[string]int{"statemask": 255, "maxargs": 2, "arglen": 1}, Thorough: map[string]int{"statemask": 255, "maxargs": 2, "arglen": 3}, Share: 1.00},
 		},
 		QuickBudget: 10 * time.Minute, ThoroughBudget: 45 * time.Minute, Assumptions: commonAssumptions,
 	},
 	"C19": {
 		Harnesses: []HarnessDef{
-			{Pkg: "internal/object", Func: "VP_C19_ReadHeader", Quick: map[string]int{"n": 6}, Thorough: map[string]int{"n": 9}, Share: 1.00},
-			{Pkg: "internal/object", Func: "VP_C19_GetObject", Quick: map[string]int{"n": 5}, Thorough: map[string]int{"n": 7}, Share: 1.00},
-			{Pkg: "internal/object", Func: "VP_C19_ValidUnderName", Quick: map[string]int{"n": 5, "shortReads": 1}, Thorough: map[string]int{"n": 8, "shortReads": 1}, Share: 1.00},
-			{Pkg: "internal/object", Func: "VP_C19_RawObject", Quick: map[string]int{"rawZlibMax": 6}, Thorough: map[string]int{"rawZlibMax": 8}, Share: 1.00},
-			{Pkg: "internal/object", Func: "VP_C19_WalkTree", Quick: map[string]int{"n": 5}, Thorough: map[string]int{"n": 7}, Share: 1.00},
-			{Pkg: "internal/object", Func: "VP_C19_NewCommit", Quick: map[string]int{"n": 5}, Thorough: map[string]int{"n": 7}, Share: 1.00},
-			{Pkg: "internal/object", Func: "VP_C19_ReadSign", Quick: map[string]int{"n": 7}, Thorough: map[string]int{"n": 9}, Share: 1.00},
-			{Pkg: "internal/store", Func: "VP_C19_IndexRead", Quick: map[string]int{"n": 8}, Thorough: map[string]int{"n": 12}, Share: 1.00},
-			{Pkg: "internal/store", Func: "VP_C19_ConfigLoad", Quick: map[string]int{"n": 5}, Thorough: map[string]int{"n": 7}, Share: 1.00},
-			{Pkg: "internal/store", Func: "VP_C19_NewHead", Quick: map[string]int{"n": 5}, Thorough: map[string]int{"n": 7}, Share: 1.00},
-			{Pkg: "internal/store", Func: "VP_C19_RefsLoad", Quick: map[string]int{"n": 5}, Thorough: map[string]int{"n": 7}, Share: 1.00},
+			{Pkg: "internal/object", Func: "VP_C19_ReadHeader", Quick: map[string]int{"n": 6}, Thorough: map[string]int{"n": 12}, Share: 1.00},
+			{Pkg: "internal/object", Func: "VP_C19_GetObject", Quick: map[string]int{"n": 5}, Thorough: map[string]int{"n": 9}, Share: 1.00},
+			{Pkg: "internal/object", Func: "VP_C19_ValidUnderName", Quick: map[string]int{"n": 5, "shortReads": 1}, Thorough: map[string]int{"n": 12, "shortReads": 1}, Share: 1.00},
+			{Pkg: "internal/object", Func: "VP_C19_RawObject", Quick: map[string]int{"rawZlibMax": 6}, Thorough: map[string]int{"rawZlibMax": 10}, Share: 1.00},
+			{Pkg: "internal/object", Func: "VP_C19_WalkTree", Quick: map[string]int{"n": 5}, Thorough: map[string]int{"n": 9}, Share: 1.00},
+			{Pkg: "internal/object", Func: "VP_C19_NewCommit", Quick: map[string]int{"n": 5}, Thorough: map[string]int{"n": 9}, Share: 1.00},
+			{Pkg: "internal/object", Func: "VP_C19_ReadSign", Quick: map[string]int{"n": 7}, Thorough: map[string]int{"n": 12}, Share: 1.00},
+			{Pkg: "internal/store", Func: "VP_C19_IndexRead", Quick: map[string]int{"n": 8}, Thorough: map[string]int{"n": 16}, Share: 1.00},
+			{Pkg: "internal/store", Func: "VP_C19_ConfigLoad", Quick: map[string]int{"n": 5}, Thorough: map[string]int{"n": 8}, Share: 1.00},
+			{Pkg: "internal/store", Func: "VP_C19_NewHead", Quick: map[string]int{"n": 5}, Thorough: map[string]int{"n": 9}, Share: 1.00},
+			{Pkg: "internal/store", Func: "VP_C19_RefsLoad", Quick: map[string]int{"n": 5}, Thorough: map[string]int{"n": 10}, Share: 1.00},
 			{Pkg: "internal/store", Func: "VP_C19_MutatedFiles", Quick: map[string]int{}, Thorough: map[string]int{}, Share: 1.00},
 			{Pkg: "internal/object", Func: "VP_C19_MutatedObjects", Quick: map[string]int{}, Thorough: map[string]int{}, Share: 1.00},
-			{Pkg: "internal/store", Func: "VP_C19_ReflogLoad", Quick: map[string]int{"n": 5}, Thorough: map[string]int{"n": 7}, Share: 1.00},
+			{Pkg: "internal/store", Func: "VP_C19_ReflogLoad", Quick: map[string]int{"n": 5}, Thorough: map[string]int{"n": 9}, Share: 1.00},
 		},
 		QuickBudget: 10 * time.Minute, ThoroughBudget: 45 * time.Minute, Assumptions: commonAssumptions,
 	},
@@ -192,7 +194,7 @@ var registry = map[string]*PropDef{
 		Harnesses: []HarnessDef{
 			{Pkg: "internal/store", Func: "VP_C20_WriteLoad", Quick: map[string]int{"pairs": 2, "wordlen": 2, "vallen": 4}, Thorough: map[string]int{"pairs": 3, "wordlen": 2, "vallen": 4}, Share: 1.00},
 			{Pkg: "internal/store", Func: "VP_C20_Precedence", Quick: map[string]int{}, Thorough: map[string]int{}, Share: 1.00},
-			{Pkg: "cmd", Func: "VP_C20_Cli", Quick: map[string]int{"writes": 2}, Thorough: map[string]int{"writes": 3}, Share: 1.00},
+			{Pkg: "cmd", Func: "VP_C20_Cli", Quick: map[string]int{"writes": 2}, Thorough: map[string]int{"writes": 4}, Share: 1.00},
 		},
 		QuickBudget: 10 * time.Minute, ThoroughBudget: 45 * time.Minute, Assumptions: commonAssumptions,
 	},
